@@ -13,7 +13,7 @@ import (
 // with probe lines made of arbitrary bytes (never LF).  Every probe line is
 // recorded with the env lines before it; TLC validates the records.
 
-var poolNames = []string{"V", "W", "a", "Va", "V1", "_u", "x"}
+var poolNames = []string{"V", "W", "a", "Va", "V1", "_u", "x", "VR", "R"}
 
 func randBytes(r *rand.Rand, n int) []byte {
 	b := make([]byte, 0, n)
